@@ -351,3 +351,74 @@ class LinkedClpLabels(Contract):
                 yield name, cond
         if n == 0:
             yield "label_obligations_generated", False
+
+
+class SpeciesSelection(Contract):
+    """retrieve_species_associated_data: concentrations and spectra reported for a species are selected by
+    its label, whatever the order of the clp labels (index dependent and independent matrices)."""
+
+    prop = "C06"
+    name = "SpeciesSelection"
+    target = "glotaran.builtin.megacomplexes.decay.util:retrieve_species_associated_data"
+    modules = MODS
+    trusted = ("xarray label based selection executed for real (coordinates concrete)",)
+    strength = "S"
+    agreement_runs = 0
+
+    def cases(self, tier):
+        labels = ("s1", "s2", "s3", "other")
+        for perm in itertools.permutations(range(3)):
+            for dep in (False, True):
+                yield {"perm": perm, "index_dependent": dep}
+
+    def build(self, S, case):
+        import xarray as xr
+
+        clp_labels = ["other", "s2", "s3", "s1"]
+        species = [f"s{i+1}" for i in case["perm"]]
+        nt, ng = 2, 2
+        shape = (ng, nt, len(clp_labels)) if case["index_dependent"] else (nt, len(clp_labels))
+        M = S.real_array("m", *shape)
+        C = S.real_array("c", ng, len(clp_labels))
+        dims = ("spectral", "time", "clp_label") if case["index_dependent"] else ("time", "clp_label")
+        ds = xr.Dataset(
+            {"matrix": (dims, np.array(M, dtype=object if S.symbolic else float)), "clp": (("spectral", "clp_label"), np.array(C, dtype=object if S.symbolic else float))},
+            coords={"time": [0.0, 1.0], "spectral": [500.0, 600.0], "clp_label": clp_labels},
+        )
+
+        class DM:
+            megacomplex = []
+
+        import types
+
+        dm = types.SimpleNamespace(megacomplex=[types.SimpleNamespace(dimension="time")], label="ds")
+        return {"ds": ds, "species": species, "M": M, "C": C, "clp_labels": clp_labels, "dm": dm}
+
+    def call(self, S, case, inp):
+        from glotaran.builtin.megacomplexes.decay.util import retrieve_species_associated_data
+
+        retrieve_species_associated_data(inp["dm"], inp["ds"], inp["species"], "species", "spectral", "spectra", False, False)
+        return inp["ds"]
+
+    def observe(self, out):
+        return out if isinstance(out, Raised) else None
+
+    def ensures(self, S, case, inp, out):
+        if isinstance(out, Raised):
+            yield "no_exception", False
+            return
+        ds, species, M, C, labels = out, inp["species"], inp["M"], inp["C"], inp["clp_labels"]
+        yield "species_coordinate_in_requested_order", [str(x) for x in ds.coords["species"].values] == species
+        conc = ds["species_concentration"].values
+        sas = ds["species_associated_spectra"].values
+        cells = []
+        for i, sp in enumerate(species):
+            j = labels.index(sp)
+            for g in range(2):
+                cells.append(L.eq(sas[g, i], C[g, j]))
+                for t in range(2):
+                    if case["index_dependent"]:
+                        cells.append(L.eq(conc[g, t, i], M[g, t, j]))
+                    elif g == 0:
+                        cells.append(L.eq(conc[t, i], M[t, j]))
+        yield "concentration_and_spectrum_of_a_species_are_selected_by_label", L.and_(*cells)
